@@ -25,15 +25,23 @@ def satisfied (req caps : Caps) : Bool :=
 /-- spec of the capability filter: keep exactly the satisfied plugins, in order -/
 def specFilter (ps : List Plugin) (caps : Caps) : List Plugin := ps.filter fun p => satisfied p.req caps
 
-/-- a required extractor `e` of a detector with requirements `dreq` "can be enabled automatically" w.r.t.
-the two extractor name tables: its exact name resolves in at least one of them, and whatever it
-resolves to runs wherever the detector runs -/
-def requiredOK (fsT stT : Table) (dreq : Caps) (e : String) : Prop :=
-  ((∃ x, fromName fsT e = .ok x) ∨ (∃ x, fromName stT e = .ok x)) ∧
-  (∀ x, fromName fsT e = .ok x → ∀ caps, satisfied dreq caps = true → satisfied x.req caps = true) ∧
-  (∀ x, fromName stT e = .ok x → ∀ caps, satisfied dreq caps = true → satisfied x.req caps = true)
+/-- SPECIFICATION-side resolution (no lookup order, no code path of the model): `p` is registered under the exact name `n`
+— the table has the entry `n ↦ [p]` and `p` calls itself `n` -/
+def RegisteredAs (t : Table) (n : String) (p : Plugin) : Prop := (n, [p]) ∈ t ∧ p.name = n
 
-/-- executable form of `requiredOK` over the finite capability product (used by `decide` and the driver) -/
+/-- a name table is a Go map: its keys are distinct -/
+def KeysNodup (t : Table) : Prop := (t.map (·.1)).Nodup
+
+/-- a required extractor `e` of a detector with requirements `dreq` "can be enabled automatically" w.r.t. the two
+extractor name tables: it is registered under its exact name in at least one of them, and whatever is registered
+under that name runs wherever the detector runs -/
+def requiredOK (fsT stT : Table) (dreq : Caps) (e : String) : Prop :=
+  ((∃ x, RegisteredAs fsT e x) ∨ (∃ x, RegisteredAs stT e x)) ∧
+  (∀ x, RegisteredAs fsT e x → ∀ caps, satisfied dreq caps = true → satisfied x.req caps = true) ∧
+  (∀ x, RegisteredAs stT e x → ∀ caps, satisfied dreq caps = true → satisfied x.req caps = true)
+
+/-- executable check over the finite capability product, through the MODEL's `fromName` (used by `decide` and the driver);
+`requiredOK_of_B` ties it to the specification above for tables with distinct keys -/
 def requiredOKB (fsT stT : Table) (dreq : Caps) (e : String) : Bool :=
   let okOf : Except NameErr Plugin → Bool := fun r =>
     match r with
